@@ -145,6 +145,32 @@ func runC04(c *Ctx) {
 		}
 		c.Fn(FuncName(cj.fn))
 	}
+	// a check of the vocabulary that is gone (renamed, given another parameter list) is succeeded
+	// by the method outside the vocabulary that Match calls directly and that reads the same fields
+	eachInstr(match, func(_ *ssa.BasicBlock, in ssa.Instruction) {
+		ci, ok := in.(ssa.CallInstruction)
+		if !ok || in.Parent() != match {
+			return
+		}
+		cal := ci.Common().StaticCallee()
+		if cal == nil || seen[cal] || !c.P.IsLibFunc(cal) || !c.P.IsNewHelper(cal) || cal.Signature.Recv() == nil || cal.Signature.Results().Len() != 1 || typeStr(cal.Signature.Results().At(0).Type()) != "bool" {
+			return
+		}
+		reads := fieldsReadFrom(c, cal, "rules", "NetworkRule")
+		role, argFld := roleOf(reads)
+		if role == "" || byRole[role] != nil {
+			return
+		}
+		seen[cal] = true
+		if c.P.adopted == nil {
+			c.P.adopted = map[*ssa.Function]bool{}
+		}
+		c.P.adopted[cal] = true
+		cj := &conj{fn: cal, reads: reads, role: role, argFld: argFld}
+		conjs = append(conjs, cj)
+		byRole[role] = cj
+		c.Fn(FuncName(cal))
+	})
 
 	// ---------- R1 ----------
 	{
@@ -162,6 +188,22 @@ func runC04(c *Ctx) {
 		for _, role := range []string{"shortcut", "content type", "$denyallow", "$domain", "$dnstype", "$ctag", "$client", "pattern"} {
 			cj := byRole[role]
 			key := "NetworkRule.Match: conjunct " + role
+			if cj == nil && role == "shortcut" {
+				// the one-line shortcut test written out in Match itself
+				var atom *E
+				for _, at := range u.AtomsOf(H) {
+					if at.Op == "call" && at.Aux == "strings.Contains" && len(at.Args) == 2 &&
+						at.Args[0].Op == "field" && at.Args[0].Aux == "URLLowerCase" && at.Args[0].Args[0] == r &&
+						at.Args[1].Op == "field" && at.Args[1].Aux == "Shortcut" && at.Args[1].Args[0] == f {
+						atom = at
+					}
+				}
+				if atom != nil {
+					want = u.bdd.And(want, u.Atom(atom))
+					c.OK("C04.R1", key, match.Pos(), "strings.Contains(Request.URLLowerCase, rule.Shortcut) written out in Match")
+					continue
+				}
+			}
 			if cj == nil {
 				c.Fail("C04.R1", key, match.Pos(), "Match calls no check that reads the fields of this modifier: the modifier is not enforced")
 				continue
